@@ -351,6 +351,8 @@ CASES = {
     "type-error-in-import": ('use "m.oal" as m;\nres / on get -> <m.t>;\n', {"m.oal": "let t = {} & num;\n"}, 1),
     "no-resources": ("let a = { 'x num };\nlet f y = [y];\n", {}, 0),
     "imports-only": ('use "m.oal" as m;\n', {"m.oal": "let t = { 'k str };\n"}, 0),
+    "byte-order-mark": ("\ufeffres / on get -> <{}>;\n", {}, 1),
+    "byte-order-mark-in-an-import": ('use "m.oal" as m;\nres / on get -> <m.t>;\n', {"m.oal": "\ufefflet t = { 'k str };\n"}, 1),
     "two-modules-ok": ('use "m.oal" as m;\nres / on get -> <m.t>;\n', {"m.oal": "let t = { 'k str };\n"}, 0),
 }
 SENTINEL = "SENTINEL: pre-existing target\n"
